@@ -36,6 +36,8 @@ pub enum Op {
 pub enum Finish {
     Exhaust,
     Max,
+    /// the rest is consumed by internal iteration (`for_each`, which goes through `Iterator::fold`)
+    ForEach,
 }
 
 pub struct History {
@@ -197,6 +199,24 @@ pub fn run_history(inp: &ScanInput, arm: Arm, h: &History) -> Result<Outcome, St
                         }
                     }
                 }
+                Finish::ForEach => {
+                    let mut rest: Vec<(usize, f32)> = Vec::new();
+                    let cap = limit + 1;
+                    sc.for_each(|hit| {
+                        if rest.len() <= cap {
+                            rest.push((hit.position(), hit.score()));
+                        }
+                    });
+                    let log = verif_traced_rows();
+                    for e in &log[logged..] {
+                        out.events.push((e.0, e.1, t));
+                    }
+                    out.yielded.extend(rest);
+                    out.exhausted = true;
+                    if out.yielded.len() > limit {
+                        out.overrun = true;
+                    }
+                }
                 Finish::Max => {
                     out.events_before_max = out.events.len();
                     let best = sc.max().map(|x| (x.position(), x.score()));
@@ -282,7 +302,7 @@ pub fn judge(inp: &ScanInput, arm: Arm, h: &History, o: &Outcome) -> Vec<Finding
     // --- constant threshold: the row log must not matter at all (block-size changes are invisible)
     let constant_t = o.thresholds.iter().all(|t| t.to_bits() == h.t0.to_bits());
     match h.finish {
-        Finish::Exhaust => {
+        Finish::Exhaust | Finish::ForEach => {
             if !o.exhausted {
                 return f;
             }
@@ -392,7 +412,7 @@ pub fn history_witness(inp: &ScanInput, arm: Arm, h: &History, o: Option<&Outcom
             })
             .collect(),
     );
-    let mut w = inp.witness(arm, h.t0, h.b0).set("history", ops).set("caller_owned_score_buffer", J::Bool(h.ext_buffer)).set("finish", J::s(if h.finish == Finish::Max { "max()" } else { "next() until None" }));
+    let mut w = inp.witness(arm, h.t0, h.b0).set("history", ops).set("caller_owned_score_buffer", J::Bool(h.ext_buffer)).set("finish", J::s(match h.finish { Finish::Max => "max()", Finish::ForEach => "for_each() over the rest", Finish::Exhaust => "next() until None" }));
     if let Some(o) = o {
         w = w
             .set("rows_scored", J::Arr(o.events.iter().take(40).map(|e| J::s(format!("{}..{} @t={}", e.0, e.1, e.2))).collect()))
@@ -408,6 +428,9 @@ pub fn history_case(case: u64, rng: &mut Rng, rep: &mut Report, inp: &ScanInput,
     rep.cover("class.history");
     if h.ext_buffer {
         rep.cover("class.history.caller_owned_score_buffer");
+    }
+    if finish == Finish::ForEach {
+        rep.cover("class.history.finished_by_internal_iteration");
     }
     let o = match run_history(inp, arm, &h) {
         Err(p) => {
